@@ -70,6 +70,42 @@ type Stores struct {
 	Filter headerfs.FilterHeaderStore
 }
 
+// LegacyIndex moves every hash->height entry of the header index from its
+// prefix sub-bucket to the root bucket of the index, which is where releases
+// before the sub-buckets stored them (lookups still fall back to it): the
+// database of an installation that was upgraded. It returns how many entries
+// were moved.
+func (s *Stores) LegacyIndex(hashes []chainhash.Hash) (int, error) {
+	n := 0
+	err := walletdb.Update(s.DB, func(tx walletdb.ReadWriteTx) error {
+		root := tx.ReadWriteBucket([]byte("header-index"))
+		if root == nil {
+			return fmt.Errorf("no header-index bucket")
+		}
+		for i := range hashes {
+			k := hashes[i][:]
+			sub := root.NestedReadWriteBucket(k[:2])
+			if sub == nil {
+				continue
+			}
+			v := sub.Get(k)
+			if v == nil {
+				continue
+			}
+			v = append([]byte(nil), v...)
+			if err := sub.Delete(k); err != nil {
+				return err
+			}
+			if err := root.Put(k, v); err != nil {
+				return err
+			}
+			n++
+		}
+		return nil
+	})
+	return n, err
+}
+
 // Close closes the database (the flat files are closed with the process /
 // garbage; headerfs exposes no Close).
 func (s *Stores) Close() {
